@@ -73,3 +73,17 @@ contract("monkeytype.db.sqlite:SQLiteStore.filter", props=["C09", "C14"], theori
          assumes={"sqlite-row-arity": "forall_v(lambda e: forall(fetched(e), lambda r: len(r) == 5))"},
          note="assumed: SQLite returns one 5-tuple per row of a 5-column SELECT (make_query post:columns proves the column list)",
          raises={"sqlite3.Error": None})
+
+contract("monkeytype.db.sqlite:create_call_trace_table", props=["C09"], theories=TH, pure=False, effects="sql",
+         params={"conn": "Conn", "table": "strp"}, result="none",
+         ensures={"post:one-transaction": "len(effects()) == len(old(effects())) + 4 and nth(effects(), len(old(effects()))) is tup('begin', conn) and last_effect_() is tup('commit', conn)",
+                  "post:idempotent-ddl": "sql_is_ddl(unboxs(nth(nth(effects(), len(old(effects())) + 1), 2))) and sql_is_ddl(unboxs(nth(nth(effects(), len(old(effects())) + 2), 2)))"},
+         raises={"sqlite3.Error": None})
+
+contract("monkeytype.db.sqlite:SQLiteStore.make_store", props=["C09"], theories=TH, pure=False, effects="sql",
+         params={"cls": "ClassOf:monkeytype.db.sqlite:SQLiteStore", "connection_string": "str"}, result="SQLiteStore",
+         # the connection keeps the sqlite3 module's default transaction control: `with conn:` around executemany is then one atomic transaction
+         ensures={"post:default-transaction-control": "default_txn(result.conn)",
+                  "post:path": "conn_path(result.conn) is connection_string",
+                  "post:table": "result.table == 'monkeytype_call_traces'"},
+         raises={"sqlite3.Error": None})
